@@ -21,6 +21,8 @@
      resub/reunsub p   SUBSCRIBE from a member / UNSUBSCRIBE from a non-member: no raw event
      flap p            one RPC carrying two subscription options of p: Leave,Join or Join,Leave
      newh/cancelh h    Topic.EventHandler() / TopicEventHandler.Cancel()
+     racenewh h p      EventHandler() in flight together with a raw event of p: the driver parks the event loop,
+                       submits both, unparks; the library orders them (both orders are explored here)
      call c m          consumer c calls NextPeerEvent on its handler, mode m
      go c              release consumer c from ctx.Done() into the select
      cancel c          cancel consumer c's context                                   *)
@@ -30,32 +32,34 @@ CONSTANTS L,          \* largest number of scenario steps
           Lmin,       \* scenarios of Lmin..L steps are emitted
           Extras      \* BOOLEAN: also resub / reunsub / flap and free-mode calls
 
-VARIABLES mode, released, flap2, scn, nx
+VARIABLES mode, released, flap2, rh, scn, nx, nr
 
-gvars == <<mode, released, flap2, scn, nx>>
+gvars == <<mode, released, flap2, rh, scn, nx, nr>>
 NoFlap == [t |-> "-", p |-> "-"]
 Free(c) == mode[c] = "free" \/ released[c]
 
 GInit == Init /\ mode = [c \in Consumers |-> "step"] /\ released = [c \in Consumers |-> FALSE]
-         /\ flap2 = NoFlap /\ scn = <<>> /\ nx = 0
+         /\ flap2 = NoFlap /\ rh = "" /\ scn = <<>> /\ nx = 0 /\ nr = 0
 
-Urgent == \/ ~Quiet \/ flap2 # NoFlap
+Urgent == \/ ~Quiet \/ flap2 # NoFlap \/ rh # ""
           \/ \E c \in Consumers : pc[c] \in {"lock", "pull", "rearm"}
           \/ \E c \in Consumers : pc[c] = "wait" /\ Free(c) /\ (sig[H(c)] = 1 \/ ctxDone[c])
 
 Internal ==
     \/ \E h \in Handlers : Notify(h) /\ UNCHANGED gvars
     \/ /\ flap2 # NoFlap /\ Quiet /\ Raw(flap2.t, flap2.p)
-       /\ flap2' = NoFlap /\ UNCHANGED <<mode, released, scn, nx>>
+       /\ flap2' = NoFlap /\ UNCHANGED <<mode, released, rh, scn, nx, nr>>
+    \/ /\ rh # "" /\ NewHandler(rh)           \* the EventHandler() call in flight takes effect (seed + register)
+       /\ rh' = "" /\ UNCHANGED <<mode, released, flap2, scn, nx, nr>>
     \/ \E c \in Consumers : (Lock(c) \/ RearmStep(c)) /\ UNCHANGED gvars
     \/ \E c \in Consumers : /\ PullStep(c)
                             /\ released' = [released EXCEPT ![c] = IF pc'[c] = "wait" THEN FALSE ELSE @]
-                            /\ UNCHANGED <<mode, flap2, scn, nx>>
+                            /\ UNCHANGED <<mode, flap2, rh, scn, nx, nr>>
     \/ \E c \in Consumers : pc[c] = "wait" /\ Free(c) /\ WaitStep(c) /\ UNCHANGED gvars
 
 Step(a, p, h, c, m) == [a |-> a, p |-> p, h |-> h, c |-> c, m |-> m]
 Rec(s) == scn' = Append(scn, s)
-Same == UNCHANGED <<mode, released, flap2, nx>>
+Same == UNCHANGED <<mode, released, flap2, rh, nx, nr>>
 
 Env ==
     /\ ~Urgent /\ Len(scn) < L
@@ -65,13 +69,19 @@ Env ==
        \/ \E h \in Handlers : CancelHandler(h) /\ Rec(Step("cancelh", "", h, "", "")) /\ Same
        \/ \E c \in Consumers, m \in (IF Extras THEN {"step", "free"} ELSE {"step"}) :
              /\ Call(c) /\ mode' = [mode EXCEPT ![c] = m] /\ released' = [released EXCEPT ![c] = FALSE]
-             /\ Rec(Step("call", "", H(c), c, m)) /\ UNCHANGED <<flap2, nx>>
+             /\ Rec(Step("call", "", H(c), c, m)) /\ UNCHANGED <<flap2, rh, nx, nr>>
        \/ \E c \in Consumers :
              /\ pc[c] = "wait" /\ ~Free(c)
              /\ released' = [released EXCEPT ![c] = TRUE]
-             /\ Rec(Step("go", "", "", c, "")) /\ UNCHANGED <<vars, mode, flap2, nx>>
+             /\ Rec(Step("go", "", "", c, "")) /\ UNCHANGED <<vars, mode, flap2, rh, nx, nr>>
        \/ \E c \in Consumers : CancelCtx(c) /\ Rec(Step("cancel", "", "", c, "")) /\ Same
-       \/ /\ Extras /\ nx < 2 /\ nx' = nx + 1
+       \/ \* handler creation racing with a membership change: both are in flight, the library orders them
+          /\ Extras /\ nr < 1 /\ nraw < MaxRaw
+          /\ \E h \in Handlers \ created, p \in Peers :
+               /\ rh' = h /\ flap2' = [t |-> IF p \in members THEN "L" ELSE "J", p |-> p]
+               /\ Rec(Step("racenewh", p, h, "", ""))
+          /\ nr' = nr + 1 /\ UNCHANGED <<vars, mode, released, nx>>
+       \/ /\ Extras /\ nx < 2 /\ nx' = nx + 1 /\ UNCHANGED <<rh, nr>>
           /\ \E p \in Peers :
                \/ /\ Rec(Step(IF p \in members THEN "resub" ELSE "reunsub", p, "", "", ""))
                   /\ UNCHANGED <<vars, mode, released, flap2>>
